@@ -386,7 +386,7 @@ def clocked_models(run, pid, th, d, rng):
         caps = (0, 1, 2) if th else (0, 1)
         g = [C(kind="Emit", cap=c, freq=f, mode=m, fail=fl, gate=gt) for c in caps for f in (1, 2) for (m, fl) in modes for gt in ((False, True) if th or pid == "C06" else (False,))]
         g += [C(kind="Unfold", cap=c, step=st, seed=1, mode=m, fail=fl, gate=gt) for c in caps for st in ("succ", "double", "const")
-              for (m, fl) in ((("pure", []), ("lift", [3]), ("lift", [1])) if pid != "C07" else (("lift", [3]), ("lift", [1]), ("lift", [2]))) for gt in (False, True)]
+              for (m, fl) in ((("pure", []), ("lift", [3]), ("lift", [1]), ("try", [2])) if pid != "C07" else (("lift", [3]), ("lift", [1]), ("lift", [2]))) for gt in (False, True)]
         if pid == "C06":
             g += [C(kind="Emit", cap=1, freq=1, mode="try", fail=[1], stderr=True), C(kind="Unfold", cap=0, step="succ", seed=1, mode="lift", fail=[2], stderr=True)]
         g3 = [c for c in g if c["cap"] < 2 and not c["gate"]]
@@ -502,6 +502,8 @@ def other_cfgs(pid, th, rng):
             for step in ("succ", "double", "const"):
                 out.append(C(kind="Unfold", cap=cap, step=step, seed=1, mode="pure", gate=False))
                 out.append(C(kind="Unfold", cap=cap, step=step, seed=1, mode="lift", fail=[4], gate=True))
+                if pid != "C07":
+                    out.append(C(kind="Unfold", cap=cap, step=step, seed=1, mode="try", fail=[2, 3, 103], gate=False))
         if pid == "C07":
             out = [c for c in out if c["mode"] != "pure" and not (c["kind"] == "Unfold" and c["mode"] != "lift")]
     if pid in ("C06", "C12"):
